@@ -2,6 +2,7 @@
 //!
 //!   enrich <slot> <g|o|r> <background ids | *> <sample ids>
 //!   link <union|single|complete|average> <slot> <term ids> <table>
+//!   linkm <method> <slot> <set|set|…> <table>      (input sets of several terms, ids ascending)
 //!
 //! Both print the implementation's answer in canonical form (compared with the Lean model) and
 //! then the verdict of an independent oracle on that answer (`oracle ok` / `oracle FAIL …`).
@@ -69,8 +70,22 @@ pub fn exec(it: &mut Interp, toks: &[&str], out: &mut Vec<String>) -> bool {
             if !["union", "single", "complete", "average"].contains(m) {
                 return false;
             }
+            let sets: Vec<Vec<u32>> = ids.iter().map(|i| vec![*i]).collect();
             match it.slots.get(&slot) {
-                Some(o) => link(o, m, &ids, &table, out),
+                Some(o) => link(o, m, &sets, &table, out),
+                None => out.push("noslot".to_string()),
+            }
+            true
+        }
+        ["linkm", m, slot, sets, table] => {
+            let (Ok(slot), Some(table)) = (slot.parse::<u32>(), unids(table)) else { return false };
+            let sets: Option<Vec<Vec<u32>>> = sets.split('|').map(unids).collect();
+            let Some(sets) = sets else { return false };
+            if !["union", "single", "complete", "average"].contains(m) {
+                return false;
+            }
+            match it.slots.get(&slot) {
+                Some(o) => link(o, m, &sets, &table, out),
                 None => out.push("noslot".to_string()),
             }
             true
@@ -203,16 +218,18 @@ pub fn mix(a: &[u32], b: &[u32]) -> u64 {
     h + 1
 }
 
-/// the distance callback shared with the model (Drv.cbDist)
-pub fn cb_dist(ids: &[u32], table: &[u32], a: &[u32], b: &[u32]) -> f32 {
-    if a.len() == 1 && b.len() == 1 {
-        let n = ids.len();
-        let i = ids.iter().position(|x| *x == a[0]).unwrap_or(n);
-        let j = ids.iter().position(|x| *x == b[0]).unwrap_or(n);
+/// the distance callback shared with the model (Drv.cbDist): two different INPUT sets -> the table
+/// entry of their positions; anything else (a merged cluster on either side) -> `mix`
+pub fn cb_dist(inputs: &[Vec<u32>], table: &[u32], a: &[u32], b: &[u32]) -> f32 {
+    let n = inputs.len();
+    let i = inputs.iter().position(|x| x.as_slice() == a).unwrap_or(n);
+    let j = inputs.iter().position(|x| x.as_slice() == b).unwrap_or(n);
+    if i < n && j < n && i != j {
         let idx = if i < j { pair_index(n, i, j) } else { pair_index(n, j, i) };
         let v = table.get(idx).copied().unwrap_or(0);
         // entries from 2^25 on are the bit pattern of the distance (distances a few ulps apart,
-        // negative distances); entries in (2^24, 2^25) are the bit pattern + 2^24 (subnormal distances)
+        // negative distances, +infinity); entries in (2^24, 2^25) are the bit pattern + 2^24
+        // (subnormal distances)
         if v >= 1 << 25 {
             f32::from_bits(v)
         } else if v > 1 << 24 {
@@ -229,9 +246,9 @@ fn show_pair(p: &(Vec<u32>, Vec<u32>)) -> String {
     format!("{}/{}", ids(p.0.clone()), ids(p.1.clone()))
 }
 
-fn link(o: &Ontology, m: &str, tids: &[u32], table: &[u32], out: &mut Vec<String>) {
+fn link(o: &Ontology, m: &str, tids: &[Vec<u32>], table: &[u32], out: &mut Vec<String>) {
     let n = tids.len();
-    let sets: Vec<HpoSet<'_>> = tids.iter().map(|i| HpoSet::new(o, HpoGroup::from(vec![*i]))).collect();
+    let sets: Vec<HpoSet<'_>> = tids.iter().map(|i| HpoSet::new(o, HpoGroup::from(i.clone()))).collect();
     let log: RefCell<Vec<Vec<(Vec<u32>, Vec<u32>)>>> = RefCell::new(vec![]);
     let distance = |combs: Combinations<HpoSet<'_>>| -> Vec<f32> {
         let mut call = vec![];
@@ -323,7 +340,8 @@ fn link(o: &Ontology, m: &str, tids: &[u32], table: &[u32], out: &mut Vec<String
             fails.push(format!("size merge={} got={} want={}", k, c.3, sl + sr));
         }
         size_of.push(c.3);
-        if !(c.2.is_finite()) {
+        // (an infinite distance is a legitimate one: `1 / similarity - 1` of two unrelated sets)
+        if c.2.is_nan() {
             fails.push(format!("distance merge={}", k));
         }
     }
@@ -345,7 +363,7 @@ fn link(o: &Ontology, m: &str, tids: &[u32], table: &[u32], out: &mut Vec<String
         let mut want_pairs = vec![];
         for i in 0..n {
             for j in i + 1..n {
-                want_pairs.push((vec![tids[i]], vec![tids[j]]));
+                want_pairs.push((tids[i].clone(), tids[j].clone()));
             }
         }
         if first != want_pairs {
